@@ -196,7 +196,7 @@ func wfRangeReq(o *ObjectRangeRequest) bool {
 
 //@ iface gofakes3.Backend.PutObject
 //@ requires [C12,C08] size:   size >= 0
-//@ requires           input:  input != nil
+//@ requires           input:  input != nil && meta != nil
 //@ modifies store_gen, put_count, put_bucket, put_key, put_meta, put_size, put_input, rd_pos(input)
 //@ ensures [C08]      reject: imp(ret1 != nil, store_gen == old(store_gen))
 //@ ensures            log:    put_count == old(put_count) + 1 && put_bucket == bucketName && put_key == key &&
@@ -483,7 +483,6 @@ func wfRangeReq(o *ObjectRangeRequest) bool {
 //@ func (*GoFakeS3).ensureBucketExists
 //@ props C02 C09 C08
 //@ requires           inv:    gInv(g)
-//@ ensures [C02]      code:   imp(ret0 != nil && typeis(ret0, *resourceErrorResponse), errcode(ret0) == ErrNoSuchBucket)
 //@ ensures [C08]      quiet:  imp(!g.autoBucket, store_gen == old(store_gen))
 //@ modifies store_gen
 
@@ -659,4 +658,27 @@ func wfRangeReq(o *ObjectRangeRequest) bool {
 //@ props C01 C08 C09
 //@ requires           wf:     h != nil && h.hash != nil
 //@ ensures [C01]      done:   imp(h.sum != nil, ret0 == h.sum)
+//@ modifies nothing
+
+//@ func MergeMetadata
+//@ props C01 C09
+//@ requires           args:   db != nil && meta != nil
+//@ ensures [C01]      keep:   allstr(k, imp(old(has(meta, k)), has(meta, k) && meta[k] == old(meta[k])))
+//@ modifies meta[:]
+
+//@ func CopyObject
+//@ props C02 C01 C08 C09
+//@ requires           args:   db != nil
+//@ ensures [C08]      reject: imp(err != nil, store_gen == old(store_gen))
+//@ modifies store_gen, put_count, put_bucket, put_key, put_meta, put_size, put_input
+
+//@ func (MFADeleteStatus).Enabled
+//@ props C05
+//@ ensures [C05]      def:    ret0 == (v == MFADeleteEnabled)
+//@ modifies nothing
+
+//@ func (*VersioningConfiguration).Enabled
+//@ props C05
+//@ requires           v:      v != nil
+//@ ensures [C05]      def:    ret0 == (v.Status == VersioningEnabled)
 //@ modifies nothing
